@@ -3,6 +3,7 @@ package mbapp
 import (
 	"context"
 	"fmt"
+	"io"
 	"runtime"
 	"sync/atomic"
 	"time"
@@ -87,6 +88,9 @@ func (s *Swarm[A, Pub]) Ask(ctx context.Context, resp []byte, dst A, req p2p.IOV
 	// wait or timeout
 	if err := ask.await(ctx); err != nil {
 		return 0, errors.Wrapf(err, "waiting for ask response from %v", dst)
+	}
+	if ask.tooLong {
+		return 0, io.ErrShortBuffer
 	}
 	if ask.errCode > 0 {
 		err := AppError{
